@@ -192,7 +192,10 @@ func SelfTest(id, dir, verif string) SelfTestResult {
 // MutantsDir is set by SelfTest so that patch files are found next to the YAML files.
 var MutantsDir string
 
-type edit struct{ file, find, replace string }
+type edit struct {
+	file, find, replace string
+	line                int // 1-based line of the old text in the original file (unified diff hunks); 0 = unknown
+}
 
 // editsFromPatch turns a unified diff into one find/replace edit per hunk (context and removed lines → context
 // and added lines). A hunk whose old text is not found exactly once makes the variant "skipped".
@@ -205,9 +208,10 @@ func editsFromPatch(path string) ([]edit, error) {
 	file := ""
 	var oldB, newB strings.Builder
 	inHunk := false
+	hunkLine := 0
 	flush := func() {
 		if inHunk && file != "" {
-			out = append(out, edit{file, oldB.String(), newB.String()})
+			out = append(out, edit{file: file, find: oldB.String(), replace: newB.String(), line: hunkLine})
 		}
 		oldB.Reset()
 		newB.Reset()
@@ -223,6 +227,8 @@ func editsFromPatch(path string) ([]edit, error) {
 		case strings.HasPrefix(ln, "@@"):
 			flush()
 			inHunk = true
+			hunkLine = 0
+			fmt.Sscanf(ln, "@@ -%d", &hunkLine)
 		case inHunk && strings.HasPrefix(ln, "+"):
 			newB.WriteString(ln[1:])
 		case inHunk && strings.HasPrefix(ln, "-"):
@@ -247,10 +253,10 @@ func overlayFor(dir string, m Mutant) (map[string][]byte, bool, error) {
 		}
 		edits = es
 	} else {
-		edits = []edit{{m.File, m.Find, m.Replace}}
+		edits = []edit{{file: m.File, find: m.Find, replace: m.Replace}}
 	}
 	for _, e := range m.Edits {
-		edits = append(edits, edit{e.File, e.Find, e.Replace})
+		edits = append(edits, edit{file: e.File, find: e.Find, replace: e.Replace})
 	}
 	ov := map[string][]byte{}
 	for _, e := range edits {
@@ -272,7 +278,32 @@ func overlayFor(dir string, m Mutant) (map[string][]byte, bool, error) {
 			continue
 		}
 		s := string(src)
-		if n := strings.Count(s, e.find); n != 1 {
+		n := strings.Count(s, e.find)
+		if n > 1 && e.line > 0 {
+			// a diff hunk whose context is not unique: take the occurrence nearest to the hunk's line
+			best, bestDist := -1, 1<<30
+			for from := 0; ; {
+				i := strings.Index(s[from:], e.find)
+				if i < 0 {
+					break
+				}
+				pos := from + i
+				ln := strings.Count(s[:pos], "\n") + 1
+				d := ln - e.line
+				if d < 0 {
+					d = -d
+				}
+				if d < bestDist {
+					best, bestDist = pos, d
+				}
+				from = pos + 1
+			}
+			if best >= 0 && bestDist < 200 {
+				ov[abs] = []byte(s[:best] + e.replace + s[best+len(e.find):])
+				continue
+			}
+		}
+		if n != 1 {
 			return nil, true, fmt.Errorf("anchor text occurs %d times in %s", n, e.file)
 		}
 		ov[abs] = []byte(strings.Replace(s, e.find, e.replace, 1))
